@@ -318,3 +318,41 @@ func ZZ_C21_next() {
 		}
 	}
 }
+
+// ZZ_C21_dependencies: D(w) (12.6) for reports with 0..2 prerequisites and 0..2 segment-root
+// lookup entries: the dependency list is exactly the prerequisites followed by the lookup keys,
+// and feeding the real D(w) records through E and Q selects what the Gray Paper selects.
+//zz:workers=8
+func ZZ_C21_dependencies() {
+	np := zzvt.Range("prerequisites", 0, 2)
+	nl := zzvt.Range("lookups", 0, 2)
+	var r types.WorkReport
+	var want []types.WorkPackageHash
+	for i := 0; i < np; i++ {
+		h := zzPkg("prereq")
+		r.Context.Prerequisites = append(r.Context.Prerequisites, types.OpaqueHash(h))
+		want = append(want, h)
+	}
+	for i := 0; i < nl; i++ {
+		h := zzPkg("lookupKey")
+		r.SegmentRootLookup = append(r.SegmentRootLookup, types.SegmentRootLookupItem{WorkPackageHash: h})
+		want = append(want, h)
+	}
+	r.PackageSpec.Hash = zzPkg("pkg")
+	d := GetDependencyFromWorkReport(r)
+	zzvt.Assert(d.Report.PackageSpec.Hash == r.PackageSpec.Hash, "record-carries-the-report")
+	zzvt.Assert(len(d.Dependencies) == len(want), "dependency-count")
+	if len(d.Dependencies) == len(want) {
+		for i := range want {
+			zzvt.Assert(d.Dependencies[i] == want[i], "dependencies-are-prerequisites-and-lookup-keys")
+		}
+	}
+	// the report becomes accumulatable exactly when all of them are accumulated
+	x := []types.WorkPackageHash{zzPkg("acc1"), zzPkg("acc2")}
+	got := AccumulationPriorityQueue(QueueEditingFunction(types.ReadyQueueItem{d}, x))
+	all := !zzIn(r.PackageSpec.Hash, x)
+	for _, w := range want {
+		all = zzvt.And(all, zzIn(w, x))
+	}
+	zzvt.Assert((len(got) == 1) == all, "chosen-iff-every-dependency-accumulated")
+}
